@@ -22,7 +22,7 @@ from kawin.precipitation.PopulationBalance import PopulationBalanceModel as PBM
 from kawin.precipitation.coupling.Strength import StrengthModel
 from kawin.diffusion.Diffusion import DiffusionModel
 from kawin.thermo.Surrogate import GeneralSurrogate, BinarySurrogate, MulticomponentSurrogate, SurrogateKernel
-from kawin.thermo.MultiTherm import CurvatureOutput, GrowthRateOutput
+from kawin.thermo.MultiTherm import CurvatureOutput, GrowthRateOutput, _growthRateOutputFromCurvature
 from kawin.thermo.utils import _process_xT_arrays, _process_TG_arrays
 import kawin.GenericModel as _mod_generic
 import kawin.precipitation.coupling.Strength as _mod_strength
@@ -704,6 +704,51 @@ def trained_curv(ctx, nx=2, nT=1, logX=False, broadcast=True, fault=False):
         ctx.prove("trained impingement factor is the trained beta", same(ctx, surr.impingementFactor(xs[i], Ts[j]), want.beta))
 
 
+def trained_curv_phase(ctx, nx=2, nT=1, broadcast=True, both=False, form="kw"):
+    """two precipitate phases, curvature model trained for the SECOND one (optionally also for the first, whose training
+    data differ): curvatureFactor, impingementFactor and getGrowthAndInterfacialComposition asked for the second
+    precipitate at its training points use the training data of THAT phase.  Growth rate and interfacial compositions
+    follow the documented relations (Philippe & Voorhees eq. 28, 31, 36) on the trained curvature output:
+    v = mc/R (dG - gExtra), c_alpha = clip(x - (dG - gExtra) dc), c_beta = clip(c_eq_beta + gba (c_alpha' - c_eq_alpha))"""
+    ne = 3; n = ne - 1
+    therm = Therm(ctx, ne, _PHASES, flags=False)
+    surr = MulticomponentSurrogate(therm, kernel=mk_kernel(ctx), kernelKwargs={})
+    xs, Ts, xarg, Targ = _state_points(ctx, ne, nx, nT, False)
+    first, second = _PHASES[1], _PHASES[2]
+    dG = ctx.real("dG", (100.0, 900.0)); R = ctx.real("R", (0.5, 2.0)); gE = ctx.real("gE", (10.0, 500.0))
+    ctx.assume(R > 0, "precipitate radius is positive")
+    if both:
+        surr.trainCurvature(xarg, Targ, precPhase=first, broadcast=broadcast)
+    surr.trainCurvature(xarg, Targ, precPhase=second, broadcast=broadcast)
+    ctx.prove("models registered for exactly the trained phases", sorted(surr.curvatureModels.keys()) == sorted([second] + ([first] if both else [])))
+    ph_a, ph_k = ((second,), {}) if form == "pos" else ((), {"precPhase": second})
+    clip = lambda v: ctx.ite(v < 0, 0.0 * v, ctx.ite(v > 1, 0.0 * v + 1.0, v))
+    for i, j in _grid(nx, nT, broadcast):
+        want = therm.curvatureFactor(xs[i], Ts[j], precPhase=second)          # training data of the second precipitate
+        got = surr.curvatureFactor(xs[i], Ts[j], *ph_a, **ph_k)
+        obs(ctx, "mc%d%d" % (i, j), got.mc)
+        for f in ("dc", "mc", "gba", "beta", "c_eq_alpha", "c_eq_beta"):
+            ctx.prove("curvature factor of the requested precipitate reproduces its training data: " + f,
+                      same_arr(ctx, getattr(got, f), getattr(want, f)))
+        ctx.prove("impingement factor of the requested precipitate is its trained beta",
+                  same(ctx, surr.impingementFactor(xs[i], Ts[j], *ph_a, **ph_k), want.beta))
+        g = surr.getGrowthAndInterfacialComposition(xs[i], Ts[j], dG, R, gE, *ph_a, **ph_k)
+        obs(ctx, "growth%d%d" % (i, j), tuple(g))
+        rd = dG - gE
+        x = [sc(q) for q in xs[i]]
+        dc = [sc(q) for q in want.dc]; cea = [sc(q) for q in want.c_eq_alpha]; ceb = [sc(q) for q in want.c_eq_beta]
+        ca = [x[k] - rd * dc[k] for k in range(n)]
+        cb = [ceb[k] + sum(sc(want.gba[k, l]) * (ca[l] - cea[l]) for l in range(n)) for k in range(n)]
+        ctx.prove("growth rate of the requested precipitate from its trained curvature (v R = mc (dG - gExtra))",
+                  ctx.eq(sc(g.growth_rate) * R, sc(want.mc) * rd))
+        ctx.prove("matrix-side interfacial composition of the requested precipitate from its trained curvature",
+                  ctx.all([same(ctx, flat(g.c_alpha)[k], clip(ca[k])) for k in range(n)]))
+        ctx.prove("precipitate-side interfacial composition of the requested precipitate from its trained curvature",
+                  ctx.all([same(ctx, flat(g.c_beta)[k], clip(cb[k])) for k in range(n)]))
+        ctx.prove("equilibrium compositions of the requested precipitate are its training data",
+                  ctx.all([same_arr(ctx, g.c_eq_alpha, want.c_eq_alpha), same_arr(ctx, g.c_eq_beta, want.c_eq_beta)]))
+
+
 # ----------------------------------------------------------------------------------------------------------------------
 # rebuilt from the saved file
 
@@ -967,6 +1012,14 @@ HARNESSES = [
                     "thorough": [{"nx": nx, "nT": nT, "logX": lx, "broadcast": bc, "fault": f}
                                  for nx in (1, 2, 3) for nT in (1, 2) for lx in (False, True) for bc in (True, False) for f in (False, True)
                                  if not (nx == 1 and nT == 1) and (bc or nx == nT)]}),
+    Harness("C20.trained_curv_phase", trained_curv_phase, stubs=_S_THERM + _S_KERNEL, assumptions=_A_TR + ["R > 0"],
+            functions=_F_TR + [MulticomponentSurrogate.getGrowthAndInterfacialComposition, _growthRateOutputFromCurvature],
+            bounds={"components": 3, "precipitate phases": 2, "compositions": "nx", "temperatures": "nT", "radii per call": 1},
+            params={"quick": [{"nx": 2, "nT": 1, "broadcast": True, "both": False, "form": "kw"},
+                              {"nx": 2, "nT": 1, "broadcast": True, "both": True, "form": "pos"},
+                              {"nx": 2, "nT": 2, "broadcast": False, "both": True, "form": "kw"}],
+                    "thorough": [{"nx": nx, "nT": nT, "broadcast": bc, "both": b, "form": f} for (nx, nT, bc) in ((2, 1, True), (1, 2, True), (2, 2, False), (2, 2, True))
+                                 for b in (False, True) for f in ("kw", "pos")]}),
     Harness("C20.rebuilt", rebuilt, functions=_F_JS + _F_TR, stubs=_S_THERM + _S_KERNEL + _S_JSON, assumptions=_A_TR,
             bounds={"components": "ne", "training grid": "2 compositions x 2 temperatures"},
             params={"quick": [{"ne": 2, "logX": False, "suffix": False}, {"ne": 3, "logX": True, "suffix": True}],
